@@ -3,6 +3,20 @@ package main
 func properties() []*propDef {
 	return []*propDef{
 		{
+			ID: "C03", Title: "Evaluation never mutates its inputs",
+			Rules: []ruleFn{ruleMUT1, ruleMUT2, ruleMUT3, ruleMUT4},
+			Explanation: "Effect analysis over every repository function reachable (VTA call graph) from the Evaluate entry points: MUT1 no protoreflect/proto mutator or generated-struct field store on a non-fresh message; MUT2 every append / element store / copy / in-place helper writes through a slice allocated in the same activation (EN-PROV freshness, through phis, local cells, closures and in-repo callees); MUT3 no store to a field of a compiled expression node; MUT4 evaluation Context fields are written only by the frozen writer table. Positive controls: the same scans from the patch API and from Compile must find the mutators / construction stores that exist there.",
+			NotDecided: []string{"mutation through reflect (user functions)", "mutation inside third-party library code other than the summarised entry points"},
+			Assumptions: []string{"protoreflect/proto mutator table as frozen in rules_c03.go", "VTA call graph over-approximates dynamic dispatch"},
+		},
+		{
+			ID: "C04", Title: "Compiled expressions are immutable, deterministic and goroutine-safe",
+			Rules: []ruleFn{ruleGLB1, ruleGLB2, ruleGLB3, ruleGLB4, ruleGLB5, ruleMUT2Compile, ruleMUT3},
+			Explanation: "Decided in the form 'there is no write to state that two evaluations or two compilations can share': GLB1 no store to a package-level variable and no escaping/writing use of a package-level map or slice in code reachable from the API; GLB2 every map update on a non-fresh function/variable table is dominated by the absent edge of a comma-ok lookup of the same map and key; GLB3 the only clock read is time.Now in InitializeContext, normalised by UTC(), and now()/today()/timeOfDay() read Context.Now only, no zone/env/random source is called; GLB4 Context.Clone carries Now/ExternalConstants/LastResult into a new struct; GLB5 the root Evaluate receives the Context built in the same call; MUT2c no write through a caller-owned slice on the Compile paths; MUT3 no store to a compiled node at evaluation time.",
+			NotDecided: []string{"data races inside third-party libraries (protobuf lazy init, ANTLR caches, regexp)", "equality of results across runs (follows from absence of shared writes and of clock/zone/random reads, not checked on values)"},
+			Assumptions: []string{"VTA call graph over-approximates dynamic dispatch", "generated grammar package initialises its tables under sync.Once (trusted)"},
+		},
+		{
 			ID: "C16", Title: "Every built-in function is callable under its specification name and arity",
 			Rules: []ruleFn{ruleTAB1, ruleTAB2, ruleTAB3, ruleTAB4},
 			Explanation: "Exhaustive over both function tables as they stand in the working tree: TAB1 compares every key with the implementation bound to it (name agreement) and every exported implementation with its registration; TAB2 decides, for every entry and n=0..5, by conditional constant propagation under len(args)=n whether the implementation itself rejects the arity, and compares with the table bounds and the frozen FHIRPath N1 arities; TAB3 shows the placeholder errors on all paths; TAB4 shows VisitFunction constructs the call node iff the name was found and Min<=n<=Max.",
